@@ -1,6 +1,6 @@
 SPECIFICATION MCSpec
-CONSTANT Params <- FieldsParams
-CONSTANT MkCase <- FieldsCase
+CONSTANT Params <- RsdpParams
+CONSTANT MkCase <- RsdpCase
 INVARIANT DesignAccepted
 INVARIANT DesignControlled
 INVARIANT Export
